@@ -12,7 +12,7 @@ import Driver.ClusterD
 namespace Driver
 
 structure State where
-  storage : StorageD.St := none
+  storage : StorageD.CSt := {}
   notifier : NotifierD.St := {}
   cluster : ClusterD.St := none
 
@@ -29,7 +29,7 @@ def step (st : State) (line : String) : State × String :=
     let (s', out) := NotifierD.step st.notifier args
     ({ st with notifier := s' }, out)
   | "S" :: args =>
-    let (s', out) := StorageD.step st.storage args
+    let (s', out) := StorageD.stepC st.storage args
     ({ st with storage := s' }, out)
   | _ => (st, "bad-op")
 
